@@ -670,7 +670,11 @@ func (d *DNSFilter) processRewrites(host string, qtype uint16) (res Result) {
 
 		log.Debug("rewrite: cname for %s is %s", host, rwAns)
 
-		if origHost == rwAns || rwPat == rwAns {
+		if rwPat == rwAns && host != origHost {
+			// The canonical name is an exception itself, so resolve it, and
+			// not the original hostname, using the upstream.
+			return res
+		} else if origHost == rwAns || rwPat == rwAns {
 			// Either a request for the hostname itself or a rewrite of
 			// a pattern onto itself, both of which are an exception rules.
 			// Return a not filtered result.
